@@ -210,8 +210,9 @@ def check_case(run, system, specs, routine, strategy, kind, reverse, user_levels
         goals = [build_goal(env, s, strategy) for s in specs]
         nontriv = False
         if failing_first:
-            # optimisation calls that fail come first: an unknown strategy, a goal the backend gives up on.  They must
-            # leave the optimiser as it was (the checks below compare the assertion stack and the optimum as usual)
+            # (only when driven by C15) optimisation calls that fail come first: an unknown strategy, a goal the backend
+            # gives up on.  They must leave the optimiser as it was (the checks below compare the assertion stack and the
+            # optimum as usual)
             from pysmt.optimization.goal import MinimizationGoal, MaximizationGoal
             mgr_ = env.formula_manager
             wide = mgr_.Symbol("wide8", env.type_manager.BVType(8))
@@ -379,10 +380,9 @@ def check_case(run, system, specs, routine, strategy, kind, reverse, user_levels
         run.cls("goal:" + s[0] + ("-signed" if s[2] else ""))
 
 
-def shard(shard, seed, n):
-    run = Run(PID)
-
-    def body(rnd):
+def random_case(run, rnd, failing_first=0):
+    """One generated optimisation case (used by C18, and by C15 with failing calls in front)."""
+    if True:
         g, system = gen_system(rnd)
         routine = rnd.choice(["optimize", "optimize", "boxed", "lexicographic", "pareto"])
         strategy = rnd.choice(["linear", "binary"]) if routine != "pareto" else "linear"
@@ -395,7 +395,14 @@ def shard(shard, seed, n):
             flip = ("max" if specs[0][0] == "min" else "min", specs[0][1], specs[0][2])
             specs = (specs[0], flip) + specs[2:]
         check_case(run, tuple(system), specs, routine, strategy, kind, rnd.random() < 0.5, rnd.choice([0, 0, 1, 2]),
-                   reuse=rnd.random() < 0.3, failing_first=rnd.randrange(1, 16) if rnd.random() < 0.25 else 0)
+                   reuse=rnd.random() < 0.3, failing_first=failing_first)
+
+
+def shard(shard, seed, n):
+    run = Run(PID)
+
+    def body(rnd):
+        random_case(run, rnd)
     drive(body, st.randoms(use_true_random=True), n, derive_seed(seed, "c18", shard))
     return run
 
